@@ -197,7 +197,7 @@ def _viol(job, label, clock, fname, fu, oplog, rec, exp, what_extra="") -> dict:
 
 def make_jobs(ctx: Ctx) -> list[dict]:
     jobs = []
-    unis = ["U1", "U2", "U3", "U6", "U8"]
+    unis = ["U1", "U2", "U3", "U6", "U8", "U17"]
     stores = [("fs", "ff"), ("sqlite", "ff")] + ([("fs", "json"), ("sqlite", "json")] if ctx.thorough else [])
     idx = 0
     for un in unis:
